@@ -114,7 +114,7 @@ class Monitor(explore.BaseMonitor):
                 kb, ka = self.key_before, w.key()
                 diff = [i for i, (a, b) in enumerate(zip(kb, ka)) if a != b]
                 names = ['state', 'allow_auto', 'hold_time', 'keepalive_time', 'timers', 'conns', 'no_proto', 'no_estab',
-                         'connected', 'local_caps', 'remote_caps', 'peer_id', 'bgp_id', 'mq_empty', 'extra']
+                         'connected', 'local_caps', 'remote_caps', 'peer_id', 'bgp_id', 'mq_empty', 'connector_ref', 'extra']
                 key = 'C01|%s|%s|ignored event changed internal state: %s' % (label, evname, ','.join(names[i] for i in diff))
                 v.append((key, {'before': [kb[i] for i in diff], 'after': [ka[i] for i in diff]}))
                 if findings.match(PROP, key) is None:
